@@ -229,7 +229,15 @@ def rand_def(rng, name, nsets=None, ctx_p=0.0, eof_p=0.1, kinds=None, maxrules=4
         for _ in range(nr):
             r = rand_rule_regex(rng, depth)
             if rng.random() < eof_p:
-                r = ('cat', r, EOFR) if rng.random() < 0.8 else EOFR
+                q = rng.random()
+                if q < 0.5:
+                    r = ('cat', r, EOFR)
+                elif q < 0.65:
+                    r = EOFR
+                elif q < 0.9:
+                    r = ('cat', r, ('alt', rand_class(rng, False), EOFR))      # `re (x | $)`: `$` at the tail of one alternative
+                else:
+                    r = ('cat', r, ('opt', EOFR))
             kind = rng.choice(kinds)
             target = None
             if kind in ('sw', 'swret'):
@@ -238,7 +246,7 @@ def rand_def(rng, name, nsets=None, ctx_p=0.0, eof_p=0.1, kinds=None, maxrules=4
                 else:
                     target = rng.choice(names)
             ctx = None
-            if rng.random() < ctx_p and r != EOFR and r[-1] != EOFR:
+            if rng.random() < ctx_p and r != EOFR and 'eof' not in repr(r):
                 ctx = rand_ctx(rng)
                 if rng.random() < 0.7:
                     # keep the lexeme short so that lexeme + context fit into the input bound
